@@ -182,6 +182,10 @@ package mutating
 
 //@ spec func namedBefore(cs []corev1.Container, nm string, k int) bool = exists j int :: 0 <= j && j < k && j < len(cs) && cs[j].Name == nm && hasBatch(cs, j)
 
+// sp is a summary of the (final) container specs of pod: every entry belongs to a container that names a batch resource
+// and holds exactly its batch requests and limits
+//@ spec func summarises(sp *extension.ExtendedResourceSpec, pod *corev1.Pod) bool = sp != nil && (forall j int :: 0 <= j && j < len(pod.Spec.Containers) && has(sp.Containers, pod.Spec.Containers[j].Name) ==> summaryAt(sp.Containers, pod.Spec.Containers, j)) && (forall nm string :: has(sp.Containers, nm) ==> namedBefore(pod.Spec.Containers, nm, len(pod.Spec.Containers)))
+
 // The summary handed to SetExtendedResourceSpec (and hence the annotation text specEnc(spec)) matches the final container
 // specs: every entry belongs to a container that names a batch resource and holds exactly its batch requests and limits.
 // NOT proved: "no such container is omitted" -- needs &pod.Spec.Containers[i] != nil at the call of
@@ -189,7 +193,17 @@ package mutating
 //@ func (*PodMutatingHandler).mutateByExtendedResources [C13]
 //@   requires pod != nil
 //@   requires forall a int, b int :: 0 <= a && a < b && b < len(pod.Spec.Containers) ==> pod.Spec.Containers[a].Name != pod.Spec.Containers[b].Name   // API validation: unique container names
-//@   assert before call SetExtendedResourceSpec: $arg0 == pod && $arg1 != nil && (forall j int :: 0 <= j && j < len(pod.Spec.Containers) && has($arg1.Containers, pod.Spec.Containers[j].Name) ==> summaryAt($arg1.Containers, pod.Spec.Containers, j)) && (forall nm string :: has($arg1.Containers, nm) ==> namedBefore(pod.Spec.Containers, nm, len(pod.Spec.Containers)))
+// the summary computed from the final spec is what is compared with the decoded annotation and, when they differ, written
+//@   assert before call GetExtendedResourceSpec: $arg0 == pod.ObjectMeta.Annotations
+//@   assert before call DeepEqual: payload($arg0, *extension.ExtendedResourceSpec) == extendedResourceSpec && typeis($arg0, *extension.ExtendedResourceSpec) && typeis($arg1, *extension.ExtendedResourceSpec) && payload($arg1, *extension.ExtendedResourceSpec) == lastresult("GetExtendedResourceSpec", 0) && summarises(extendedResourceSpec, pod)
+//@   assert before call SetExtendedResourceSpec: $arg0 == pod && $arg1 == extendedResourceSpec && summarises($arg1, pod) && lastresult("GetExtendedResourceSpec", 1) == nil && !lastresult("DeepEqual")
+// completeness: the annotation is decoded exactly once; unless decoding fails the summary is compared with it exactly once
+// (reflect.DeepEqual); the setter runs (exactly once) iff they differ, and the result is true exactly then (setter succeeded)
+//@   ensures #decoded: calls("GetExtendedResourceSpec") == 1
+//@   ensures #compared: lastresult("GetExtendedResourceSpec", 1) == nil ==> calls("DeepEqual") == 1
+//@   ensures #when: calls("SetExtendedResourceSpec") == 1 <==> (lastresult("GetExtendedResourceSpec", 1) == nil && !lastresult("DeepEqual"))
+//@   ensures #result: result0 <==> (calls("SetExtendedResourceSpec") == 1 && lastresult("SetExtendedResourceSpec") == nil)
+//@   ensures #error: lastresult("GetExtendedResourceSpec", 1) != nil ==> !result0 && result1 != nil
 //@   ensures #once: calls("SetExtendedResourceSpec") <= 1
 //@   ensures #changed: result0 ==> result1 == nil && calls("SetExtendedResourceSpec") == 1 && has(pod.ObjectMeta.Annotations, extension.AnnotationExtendedResourceSpec)
 //@   ensures #unchanged: calls("SetExtendedResourceSpec") == 0 ==> !result0 && pod.ObjectMeta.Annotations == old(pod.ObjectMeta.Annotations) && (forall k string :: has(pod.ObjectMeta.Annotations, k) == old(has(pod.ObjectMeta.Annotations, k)) && pod.ObjectMeta.Annotations[k] == old(pod.ObjectMeta.Annotations[k]))
